@@ -228,7 +228,12 @@ pub fn gen_valid_frame(t: &mut Tape) -> Vec<u8> {
                     }
                 },
             };
-            rc::encode(&f)
+            // now and then the variable-length format where a fixed one would do
+            if t.chance(1, 6) {
+                rc::encode_sd2(&f)
+            } else {
+                rc::encode(&f)
+            }
         }
     }
 }
